@@ -122,13 +122,18 @@ def run(ck: Check) -> int:
     L = 6 if ck.thorough() else 5
     ck.bound('call_sequence_length', L)
     ck.bound('call_alphabet', H.SYMS)
-    ck.bound('configs', dict(node_counter=H.COUNTERS if ck.thorough() else [126], mempool=list(H.PENDING), client_prelude={k: list(v) for k, v in H.PRELUDES.items()}))
+    ck.bound('configs', dict(node_counter=H.COUNTERS if ck.thorough() else [126], mempool=list(H.PENDING),
+                              client_prelude={k: list(v) for k, v in H.PRELUDES.items()},
+                              pairs='all 9 (mempool, prelude) pairs' if ck.thorough() else '6 of the 9 (mempool, prelude) pairs'))
     ck.rule('R: every well-formed call sequence of length L (all shorter ones are its prefixes and are checked on the way) from '
             'every configuration (node counter x initial mempool x client prelude); class = (mempool, prelude, sequence with '
             'group sizes forgotten and repeated calls collapsed)')
     _unit_offset_contract(ck)
     _validate_oracle(ck)
-    cfgs = [c for c in H.configs() if ck.thorough() or c[0] == 126]     # quick: one node counter (the boundary one)
+    quick_cfgs = {('p0', 'fresh'), ('p1+refused', 'fresh'), ('p3', 'fresh'), ('p0', 'after-refused'), ('p3', 'after-refused'),
+                  ('p1+refused', 'after-included')}
+    # quick: the boundary node counter and 6 of the 9 (mempool, prelude) pairs; thorough: all 18 configurations
+    cfgs = [c for c in H.configs() if ck.thorough() or (c[0] == 126 and (c[1], c[2]) in quick_cfgs)]
     seqs = [s for s in H.sequences(L) if len(s) == L]
     tasks = [(cfg, ch) for cfg in cfgs for ch in _chunks(seqs, 400)]
     extra = []
